@@ -306,3 +306,118 @@ func VH_C11_DetachedFromMap() {
 	}
 	vhReach("detached-done")
 }
+
+// The former parent is itself nested and open through TWO handles: the child
+// handle was handed out by one of them, the child is detached through the
+// other (so the first handle's position tracking for the child is stale), and
+// something else now sits at the child's old position. Mutating the detached
+// child through its handle must not write it back over that element.
+//
+//vh:prop C11
+//vh:param ops 1 2
+func VH_C11_DetachedViaParentAlias() {
+	vhSetThreshold(256)
+	nops := vhParam("ops", 1)
+	storage := &vLogStorage{BasicSlabStorage: vhNewBasicStorage()}
+	addr := vhAddr(1)
+	grand, _ := NewArray(storage, addr, vTypeInfo{id: 42})
+	parent, _ := NewArray(storage, addr, vTypeInfo{id: 42})
+	child, _ := NewArray(storage, addr, vTypeInfo{id: 42})
+	childVID := child.ValueID()
+	var cm []uint64
+	k := vhChoose("childlen", 3)
+	for i := 0; i < k; i++ {
+		t := uint64(10 + i)
+		_ = child.Append(vElem{tag: t, size: vhRange32("csz", 1, 60)})
+		cm = append(cm, t)
+	}
+	// parent: [before?] child after
+	var pm []uint64
+	if vhChoose("before", 2) == 1 {
+		_ = parent.Append(vElem{tag: 1, size: vhRange32("sibsz", 1, 40)})
+		pm = append(pm, 1)
+	}
+	childIdx := uint64(len(pm))
+	vhAssert(parent.Append(child) == nil, "setup: attach child")
+	_ = parent.Append(vElem{tag: 2, size: vhRange32("sibsz", 1, 40)})
+	pm = append(pm, 2)
+	vhAssert(grand.Append(parent) == nil, "setup: attach parent")
+	// two handles to the parent
+	v1, err1 := grand.Get(0)
+	v2, err2 := grand.Get(0)
+	vhAssert(err1 == nil && err2 == nil, "setup: parent handles")
+	if err1 != nil || err2 != nil {
+		return
+	}
+	p1, p2 := v1.(*Array), v2.(*Array)
+	hv, err := p1.Get(childIdx)
+	vhAssert(err == nil, "setup: child handle through the first parent handle")
+	if err != nil {
+		return
+	}
+	h := hv.(*Array)
+	// detach through the second parent handle
+	var detached Storable
+	if vhChoose("detach", 2) == 0 {
+		detached, err = p2.Remove(childIdx)
+		vhAssert(err == nil, "detach by remove")
+	} else {
+		detached, err = p2.Set(childIdx, vElem{tag: 3, size: vhRange32("sibsz", 1, 40)})
+		vhAssert(err == nil, "detach by overwrite")
+		pm = append(append(append([]uint64{}, pm[:childIdx]...), 3), pm[childIdx:]...)
+	}
+	if err != nil {
+		return
+	}
+	sid, isRef := detached.(SlabIDStorable)
+	vhAssert(isRef, "detached child is handed back as an independently stored value")
+	if !isRef {
+		return
+	}
+	for op := 0; op < nops; op++ {
+		switch vhChoose("op", 2) {
+		case 0:
+			t := uint64(50 + op)
+			err := h.Append(vElem{tag: t, size: vhRange32("csz", 1, 200)})
+			vhAssert(err == nil, "stale append")
+			cm = append(cm, t)
+		case 1:
+			if len(cm) == 0 {
+				return
+			}
+			s, err := h.Remove(0)
+			vhAssert(err == nil, "stale remove")
+			if err == nil {
+				vhDispose(storage, s)
+			}
+			cm = cm[1:]
+		}
+		// the former parent, read through the grandparent, is unchanged and valid
+		verr := VerifyArray(grand, addr, vTypeInfo{id: 42}, vhTic, vhHip, true)
+		vhAssert(verr == nil, "ancestors stay valid")
+		fv, ferr := grand.Get(0)
+		vhAssert(ferr == nil, "former parent readable")
+		if ferr != nil {
+			return
+		}
+		fp := fv.(*Array)
+		vhAssert(fp.Count() == uint64(len(pm)), "former parent count")
+		if fp.Count() == uint64(len(pm)) {
+			for i, want := range pm {
+				e, gerr := fp.Get(uint64(i))
+				vhAssert(gerr == nil, "former parent get")
+				if gerr == nil {
+					vhAssert(vhTagOf(e) == want, "former parent content unchanged by stale mutation")
+				}
+			}
+		}
+	}
+	vhAssert(h.ValueID() == childVID, "detached child keeps its value id")
+	vhAssert(!h.Inlined(), "detached child is standalone")
+	re, rerr := NewArrayWithRootID(storage, SlabID(sid))
+	vhAssert(rerr == nil, "detached child reloadable by its identifier")
+	if rerr == nil {
+		vhCheckArray(re, addr, cm, "detached child")
+	}
+	vhReach("detached-done")
+}
